@@ -1,5 +1,5 @@
 /-
-C15 — the decompressing side of the backends' `process_data` loop (gzip.c / xz.c / bzip2.c, with the patch):
+C15 — the decompressing side of the backends' `process_data` loop (gzip.c / xz.c / bzip2.c):
 library-level calling convention ⇒ the loop is a codec that meets `DecContract`.
 -/
 import Sqfs.Proofs.XfrmWrap
